@@ -284,7 +284,7 @@ func (b *bench) waitFrames(dir string, before int) []Frame {
 }
 
 func wireOf(fs []Frame) [][]interface{} {
-	var out [][]interface{}
+	out := [][]interface{}{}
 	for _, f := range fs {
 		out = append(out, []interface{}{f.Seq, f.ReqID, f.Chunk == "F", f.Type == "OPN", f.Token})
 	}
